@@ -356,6 +356,30 @@ def run(ctx: Ctx) -> None:
                     [(t.type, t.level, t.map) for t in md.parse(var)] != [(t.type, t.level, t.map) for t in md.parse(base)]:
                 ctx.fail("marker-tabs", "tab spelling changes blocks/nesting/maps/text of a multi-line document",
                          {"input": var, "space_twin": base})
+        # ---- (c) a line of every block-starting shape, indented by every space/tab mixture, after every kind of
+        # first line (what it may interrupt / continue depends on its column, never on how the blanks are spelled)
+        firsts = ["Title", "- Title", "> Title", "1. Title", "Title\nmore", "- a\n\n  b", "# h", "```\ncode", "    code", "<div>", "[r]: /u", ""]
+        indents = ["\t", " \t", "  \t", "   \t", "    \t", "\t ", "\t  ", "\t\t", " \t ", "  \t\t", "\t   ", "   \t \t"]
+        shapes = ["===", "---", "- x", "* * *", "# h", "> q", "```", "~~~", "1. x", "x", "<div>", "[r2]: /v", "|a|b|", "+", "2) y", "=", "-"]
+        nc = 0
+        mdt = MarkdownIt("commonmark").enable("table")
+        for f in firsts:
+            for ind in indents:
+                for sh in shapes:
+                    for tail in ("\n", "\nz\n"):
+                        d0 = (f + "\n" if f else "") + ind + sh + tail
+                        e0 = expand_leading(d0)
+                        nc += 1
+                        ctx.count((d0, "indented-line"), nontrivial=True)
+                        try:
+                            for m_ in (md, mdt):
+                                if not same_modulo_verbatim(m_, d0, e0) or struct_proj(m_.parse(d0)) != struct_proj(m_.parse(e0)):
+                                    ctx.fail("leading-tabs", "tabs in leading whitespace are not equivalent to their column-exact expansion",
+                                             {"input": d0, "expanded": e0, "cfg": "commonmark"})
+                                    break
+                        except Exception:
+                            pass
+        ctx.cov["indented_line_cases"] = nc
         ctx.cov["tab_family_variants"] = fam
         ctx.cov["tab_family_exhaustive_up_to_segments"] = 2 if quick else 3
         # ---- tie: quote marker arithmetic, traced on the live rule
